@@ -131,6 +131,8 @@ func (factor) Switch(
 	body *ast.BlockStmt,
 ) ast.Stmt {
 	switch x := x.(type) {
+	case nil: // tag-less switch
+		return X.SwitchStmt(init, nil, body)
 	case ast.Expr:
 		return X.SwitchStmt(init, x, body)
 	case ast.Stmt:
